@@ -78,10 +78,10 @@ PROPS["C20"] = loop("fault_enumeration",
 
 PROPS["C17"] = {
     "engine": "systemd", "level": "exploration", "evaluations": ["patterns_lists"],
-    "rule": "one evaluation = one list of exclude patterns pushed through the real build_service_text and decoded back; exhaustive over every Unicode scalar value except NUL as a one-character pattern and over every pair (thorough: triple) of 44 syntax-relevant characters, plus seeded random strings and lists of 1-4 patterns (now and then 30-150), plus every word of a dictionary mined from the string literals of the repository's own sources (template fields, format placeholders, option names, paths) alone, embedded, between wildcards and in pairs, plus every literal spelling of an escape sequence of the target syntax and every 4-gram (thorough: 5-gram) over the 14 characters escapes are made of, plus every scalar value next to a numerically escaped character on either side, plus every scalar value at the end and at the start of a pattern that is not the last of its list; "
+    "rule": "one evaluation = one list of exclude patterns pushed through the real build_service_text and decoded back; exhaustive over every Unicode scalar value except NUL as a one-character pattern and over every pair (thorough: triple) of 44 syntax-relevant characters, plus seeded random strings and lists of 1-4 patterns (now and then 30-150), plus every word of a dictionary mined from the string literals of the repository's own sources (template fields, format placeholders, option names, paths) alone, embedded, between wildcards and in pairs, plus every literal spelling of an escape sequence of the target syntax and every 4-gram (thorough: 5-gram) over the 14 characters escapes are made of, plus every scalar value next to a numerically escaped character on either side, plus every scalar value at the end and at the start of a pattern that is not the last of its list; one random list in 40, every long list and a sample of the one-scalar patterns are also written by the real write_systemd_service to /etc/systemd/system/totalmapper@.service (tmpfs over /etc in a private mount namespace, files written over one another) and decoded from the file read back; "
             "distinct = distinct pattern lists (every case differs from the identity encoding in at least the surrounding line, so all are non-trivial)",
-    "floors": {"quick": {"single_scalar_values": 1112063, "scalar_next_to_an_escape": 3336189, "scalar_in_a_list_position": 2224126, "syntax_pairs": 1900, "long_pattern_lists": 1000, "dictionary_tokens": 500, "literal_escape_spellings": 1200, "escape_alphabet_ngrams": 38416},
-               "thorough": {"single_scalar_values": 1112063, "scalar_next_to_an_escape": 3336189, "scalar_in_a_list_position": 2224126, "syntax_triples": 85000, "long_pattern_lists": 50000, "dictionary_tokens": 500, "literal_escape_spellings": 1200, "escape_alphabet_ngrams": 537824}},
+    "floors": {"quick": {"single_scalar_values": 1112063, "scalar_next_to_an_escape": 3336189, "scalar_in_a_list_position": 2224126, "unit_files_written_and_read_back": 100000, "unit_files_with_long_lists": 10000, "syntax_pairs": 1900, "long_pattern_lists": 1000, "dictionary_tokens": 500, "literal_escape_spellings": 1200, "escape_alphabet_ngrams": 38416},
+               "thorough": {"single_scalar_values": 1112063, "scalar_next_to_an_escape": 3336189, "scalar_in_a_list_position": 2224126, "unit_files_written_and_read_back": 100000, "unit_files_with_long_lists": 10000, "syntax_triples": 85000, "long_pattern_lists": 50000, "dictionary_tokens": 500, "literal_escape_spellings": 1200, "escape_alphabet_ngrams": 537824}},
     "assumptions": ["the decoder implements systemd's documented rules (word splitting on space/tab/newline/CR, quotes anywhere in a word, C unescaping with unknown escapes kept, %% and % specifiers, $$ / ${VAR} / whole-word $VAR against an empty environment)",
                     "the ';' command-separator rule is not modelled (not among the rules the property enumerates)"],
     "level_text": "Independent decoder of systemd's ExecStart rules applied to the text the real code generates; exact argv comparison, byte for byte. Exhaustive on single scalar values and on pairs of syntax-relevant characters, sampled beyond.",
@@ -146,9 +146,9 @@ PROPS["C15"] = {
 }
 PROPS["C16"] = {
     "engine": "devices", "level": "exploration", "evaluations": ["texts", "e2e_all_keyboards_runs", "e2e_dev_file_runs", "e2e_list_keyboards_runs"],
-    "rule": "one evaluation = one generated /proc/bus/input/devices text (1-9 entries drawn from 33 realistic entries, renumbered, with names / key masks / event masks swapped, key bitmaps synthesised as random subsets of a real keyboard's keys plus stray bits, and any field but the I: header dropped) through both real extractors (hook level), or one run of the real binary "
+    "rule": "one evaluation = one generated /proc/bus/input/devices text (1-9 entries drawn from 33 realistic entries, renumbered, with names / key masks / event masks swapped, key bitmaps synthesised as random subsets of a real keyboard's keys plus stray bits, and any field but the I: header dropped) through both real extractors (hook level; one text in four also with the extractors' verbose flag on, which is what the installed unit uses), or one run of the real binary "
             "(list_keyboards, remap --all-keyboards --verbose, remap --only-if-keyboard --dev-file per device) in a private mount namespace with that text bound over /proc/bus/input/devices and fabricated /sys/devices and /dev/input; distinct = distinct texts",
-    "floors": {"quick": {"keyboard_entries_right_after_an_entry_with_a_missing_field": 5000, "exclude_sets_matching_1_device": 5000, "e2e_all_keyboards_runs": 500, "e2e_dev_file_runs": 2000, "e2e_virtual_keyboard_entries": 20, "e2e_excluded_keyboard_entries": 50, "ran_in_private_namespace": 16, "dictionary_tokens": 500, "related_pattern_lists": 5000, "small_pattern_pairs": 115600, "synthesised_key_bitmaps": 100000},
+    "floors": {"quick": {"keyboard_entries_right_after_an_entry_with_a_missing_field": 5000, "exclude_sets_matching_1_device": 5000, "e2e_all_keyboards_runs": 500, "e2e_dev_file_runs": 2000, "e2e_virtual_keyboard_entries": 20, "e2e_excluded_keyboard_entries": 50, "ran_in_private_namespace": 16, "dictionary_tokens": 500, "related_pattern_lists": 5000, "small_pattern_pairs": 115600, "synthesised_key_bitmaps": 100000, "texts_also_checked_verbose": 30000},
                "thorough": {"dictionary_tokens": 500, "small_pattern_pairs": 1860496, "synthesised_key_bitmaps": 1000000, "keyboard_entries_right_after_an_entry_with_a_missing_field": 50000, "e2e_all_keyboards_runs": 10000, "e2e_dev_file_runs": 50000, "ran_in_private_namespace": 16}},
     "assumptions": ["entries are delimited by the I: line, which the kernel always prints", "an entry's own classification (the extractor run on that entry alone) defines keyboard-like", "glob semantics of --exclude: * any sequence, ? one character, whole-name match"],
     "level_text": "Metamorphic (entry alone vs in context) and differential (two extractors, two CLI routes) monitors plus an independent glob matcher; the CLI routes are observed on the real binary in a fabricated namespace.",
